@@ -252,6 +252,15 @@ class HighOrderMutator(FirstOrderMutator):
         super().__init__(operators)
         self.hom_strategy = hom_strategy or FirstToLastHOMStrategy()
 
+    def mutation_count(  # noqa: D102
+        self,
+        target_ast: ast.AST,
+        module: types.ModuleType,
+    ) -> int:
+        # Higher-order mutants are never sampled: count what ``mutate`` yields, not the
+        # first-order mutations they are combined from.
+        return Mutator.mutation_count(self, target_ast, module)
+
     def mutate(  # noqa: D102
         self,
         target_ast: ast.AST,
